@@ -21,6 +21,8 @@ def run(ctx):
     # except C06_VictimHolds (the known finding G37 is frequent in this profile and would use up the report budget)
     m = 400 if ctx.quick else 6000
     st_cluster.run_stage(ctx, ABANDON, [("abandon", m)], nontrivial_fn=nontrivial, tag="-abandon")
+    # fragmented clusters: consolidation may only move pods (elastic jobs above their minimum, gangs, mixed sizes)
+    st_cluster.run_stage(ctx, ["C06_Consolidation", "C06_Together", "C06_Preemptible"], [("frag", m)], nontrivial_fn=nontrivial, tag="-frag")
     if not ctx.quick:
         st_fixtures.run_stage(ctx, PREFIXES)
 
